@@ -13,6 +13,7 @@ META = {
     'not_decided': ['deadlock freedom is argued from the sequential token contracts, not machine-checked', 'interleavings of more than 2 workers or 3 frames',
                     'byte-identity of output files (needs determinism of MergeWorker)', 'weak memory (pthread mutexes give SC for data-race-free code)'],
     'explanation': 'Sequential protocol contracts of ProcessData / Worker::Run are proved on every path for every worker id and thread count <= 4 (deductive, unbounded in frames); '
+                   'their ring precondition is discharged on the AST of the real CsgApplication::Run for every thread count (RVC, loops by per-iteration contracts; --nt >= 1 assumed); '
                    'the global lemma (exclusive reader/merge, frames in file order, merge order) is checked over all interleavings of 2 workers + main for small frame counts (bounded).',
 }
 SIG_PD = r'bool\s+CsgApplication::ProcessData\s*\(\s*Worker\s*\*\s*worker\s*\)'
@@ -77,6 +78,217 @@ RPTR_RUN = [('R-ptr ProcessData', r'app_->ProcessData\(this\)', 'ProcessData(ver
             ('R-ptr Out.Unlock', r'app_->threadsMutexesOut_\[([^\]]+)\]->Unlock\(\)', r'Mutex_Unlock(&Out[\1])', None),
             ('R-ptr Merge', r'app_->MergeWorker\(this\)', 'MergeWorker(verif_wid__)', None),
             ('R-ptr nthreads', r'app_->nthreads_', 'nthreads_', None)]
+
+
+def job_run_setup(seed='0'):
+    """the ring precondition of the worker contracts is established by CsgApplication::Run (RVC on the clang AST of the real function): one worker per thread with ids 0..nthreads_-1,
+    one pre-locked input and output mutex per worker, slot 0 released once, and nthreads_ - the ring modulus of ProcessData / Worker::Run - not written after the options were read.
+    Loops are closed by per-iteration contracts (symbolic loop counter, arbitrary vector prefix), so the result holds for every thread count."""
+    import sympy as sp, z3
+    from vlib import rvc
+    from vlib.rvc import Exec, SInt
+    rvc.reset()
+    REL = 'csg/src/libcsg/csgapplication.cc'
+    fns = rvc.functions(rvc.ast(REL, 'CsgApplication'))
+    F = 'CsgApplication::Run'
+    runs = [f for f in fns.get('Run', []) if any(n.get('kind') == 'ForStmt' for n in rvc.walk(f))]
+    if len(runs) != 1:
+        raise core.Undecided('front end: CsgApplication::Run not found (%d candidates)' % len(runs))
+    run = runs[0]
+    mf = [{'name': F, 'file': REL, 'ast_nodes': rvc.node_count(run), 'route': 'RVC (clang AST; worker-creation, mutex and release statements executed symbolically, loops by per-iteration contracts; frame by AST scan)'}]
+    obs = []
+    def ob(oid, clause, ok, note, witness=None, backend='symbolic execution'):
+        o = Ob('C05.run.setup/' + oid, F, clause, 'RVC', backend, core.PROVED if ok else core.REFUTED, 0, note, witness=None if ok else (witness or {}))
+        o['functions'] = mf
+        obs.append(o)
+    def members(n):
+        return set(x.get('name') for x in rvc.walk(n) if x.get('kind') == 'MemberExpr')
+    # ---- frame: nthreads_ is read-only outside EvaluateOptions (every occurrence is an rvalue read, or the left side of an assignment inside EvaluateOptions)
+    bad, writes = [], 0
+    for name, lst in fns.items():
+        for f in lst:
+            def scan(n, parent, fname):
+                nonlocal writes
+                if n.get('kind') == 'MemberExpr' and n.get('name') == 'nthreads_':
+                    read = parent is not None and parent.get('kind') == 'ImplicitCastExpr' and parent.get('castKind') == 'LValueToRValue'
+                    if not read:
+                        if fname == 'EvaluateOptions' and parent is not None and parent.get('kind') == 'BinaryOperator' and parent.get('opcode') == '=' and parent['inner'][0] is n:
+                            writes += 1
+                        else:
+                            bad.append('%s line %s' % (fname, rvc.src_line(n)))
+                for c in n.get('inner', []) or []:
+                    if isinstance(c, dict):
+                        scan(c, n, fname)
+            scan(f, None, name)
+    ob('frame.nthreads', 'the ring modulus nthreads_ is written only while the options are evaluated: Run, ProcessData and Worker::Run only read it (frame condition)', not bad and writes >= 1,
+       'writes in EvaluateOptions: %d; other non-read uses: %s' % (writes, bad or 'none'), {'writes_or_references': bad}, backend='AST scan (lvalue uses of the member)')
+    body = rvc.body_of(run)
+    fors = [n for n in rvc.walk(body) if n.get('kind') == 'ForStmt']
+    fork = [f for f in fors if 'ForkWorker' in members(f)]
+    mtx = [f for f in fors if 'threadsMutexesIn_' in members(f)]
+    if len(fork) != 1 or len(mtx) != 1:
+        raise core.Undecided('Run: one worker-creation loop and one mutex loop expected, found %d / %d' % (len(fork), len(mtx)))
+    fork, mtx = fork[0], mtx[0]
+    # ---- frame: the worker list and the two rings change only where the contracts below look
+    ringbad = []
+    def scan_calls(n, inloop):
+        if n.get('kind') == 'CXXMemberCallExpr' or n.get('kind') == 'CXXOperatorCallExpr':
+            me = [x for x in rvc.walk(n['inner'][0]) if x.get('kind') == 'MemberExpr'] if n.get('kind') == 'CXXMemberCallExpr' else []
+            if me and me[0].get('name') and len(me) >= 2 and me[1].get('name') in ('myWorkers_', 'threadsMutexesIn_', 'threadsMutexesOut_') and me[0]['inner'][0] is not None:
+                meth, vec = me[0]['name'], me[1]['name']
+                base = me[0]['inner'][0]
+                while base.get('kind') in rvc.TRANSPARENT:
+                    base = base['inner'][0]
+                direct = base is me[1]
+                if direct:
+                    if meth in ('push_back', 'emplace_back'):
+                        okp = (vec == 'myWorkers_' and inloop in (None, 'fork')) or (vec != 'myWorkers_' and inloop == 'mtx')
+                        if not okp:
+                            ringbad.append('%s.%s line %s' % (vec, meth, rvc.src_line(n)))
+                    elif meth not in ('back', 'size', 'clear', 'begin', 'end', 'empty', 'front'):
+                        ringbad.append('%s.%s line %s' % (vec, meth, rvc.src_line(n)))
+        for c in n.get('inner', []) or []:
+            if isinstance(c, dict):
+                scan_calls(c, 'fork' if c is fork else ('mtx' if c is mtx else (inloop if c.get('kind') not in ('ForStmt', 'WhileStmt', 'DoStmt', 'CXXForRangeStmt') else (inloop or 'other'))))
+    scan_calls(body, None)
+    ob('frame.rings', 'workers are appended only at the master creation and in the worker-creation loop, ring mutexes only in the mutex loop; nothing is erased or resized before the join',
+       not ringbad, 'offending calls: %s' % (ringbad or 'none'), {'calls': ringbad}, backend='AST scan (member calls on myWorkers_/threadsMutexesIn_/threadsMutexesOut_)')
+
+    class Vec:
+        def __init__(s, name, n): s.name, s.n, s.pushed, s.first = name, n, [], None
+        def call(s, name, args):
+            if name == 'size': return SInt(s.n + len(s.pushed))
+            if name in ('push_back', 'emplace_back'):
+                s.pushed.append(args[0]); return None
+            if name == 'back':
+                if not s.pushed: raise rvc.Unsupported(s.name + '.back() of the arbitrary prefix')
+                return s.pushed[-1]
+            raise rvc.Unsupported(s.name + '.' + name)
+        def index_ref(s, idx):
+            i = rvc._i(idx[0])
+            if i != 0: raise rvc.Unsupported('%s[%s]' % (s.name, i))
+            if s.first is None: s.first = Mutex()
+            return s.first
+    class Mutex:
+        def __init__(s): s.ev = []
+        def call(s, name, args): s.ev.append(name)
+    class Opts:
+        def index_ref(s, idx): return s
+        def call(s, name, args): return 'file'
+    nt, k, t = sp.Symbol('nthreads', integer=True), sp.Symbol('nworkers', integer=True), sp.Symbol('thread', integer=True)
+    def world(threaded, sync, P):
+        this = {'myWorkers_': Vec('myWorkers_', k), 'nthreads_': SInt(nt), 'do_mapping_': False, 'threadsMutexesIn_': Vec('threadsMutexesIn_', k), 'threadsMutexesOut_': Vec('threadsMutexesOut_', k)}
+        def worker(*a):
+            return {'__class__': 'Worker', 'app_': None, 'id_': SInt(sp.Symbol('unset_id', integer=True)), 'map_': None, 'top_': 'TOP', 'top_cg_': 'TOPCG'}
+        cb = {'exec_classes': ('Worker',), 'decide': P.decide, 'DoThreaded': lambda o=None: threaded, 'SynchronizeThreads': lambda o=None: sync, 'ForkWorker': worker,
+              'make_unique': lambda *a: (Mutex() if threaded else worker()), 'ReadTopology': lambda *a: None, 'CheckMoleculeNaming': lambda *a: None, 'OptionsMap': lambda *a: Opts()}
+        return this, cb
+    def loop_parts(f):
+        init, _, cond, inc, lbody = f['inner']
+        return init, cond, inc, lbody
+    # ---- master worker: id 0
+    top = [c for c in body['inner'] if isinstance(c, dict)]
+    mi = [i for i, c in enumerate(top) if c.get('kind') == 'IfStmt' and 'ForkWorker' in members(c) and not any(x.get('kind') == 'ForStmt' for x in rvc.walk(c))]
+    if len(mi) != 1:
+        raise core.Undecided('Run: master worker creation not found')
+    P = rvc.Paths(); P.start()
+    this, cb = world(True, True, P)
+    ex = Exec({'reader': 'READER', 'cg': 'CG'}, cb, fns, this)
+    j = mi[0]
+    ex.stmt(top[j])
+    while j + 1 < len(top) and 'myWorkers_' in members(top[j + 1]) and top[j + 1].get('kind') != 'DeclStmt':
+        j += 1
+        ex.stmt(top[j])
+    pw = this['myWorkers_'].pushed
+    ok = len(pw) == 1 and sp.expand(SInt.ex(pw[0]['id_'])) == 0 and pw[0]['app_'] is this
+    ob('master', 'the first worker is created once, belongs to this application and has id 0', ok, 'pushed %d worker(s), id %s' % (len(pw), pw[0]['id_'] if pw else '-'), {'id': str(pw[0]['id_']) if pw else None})
+    # ---- worker-creation loop: per-iteration contract
+    init, cond, inc, lbody = loop_parts(fork)
+    P = rvc.Paths()
+    seen_true = seen_false = False
+    while True:
+        P.start()
+        rvc.CTX.base = []
+        this, cb = world(True, True, P)
+        ex = Exec({'reader': 'READER', 'cg': 'CG'}, cb, fns, this)
+        ex.stmt(init)
+        v0 = ex.env[[x for x in rvc.walk(init) if x.get('kind') == 'VarDecl'][0]['name']]
+        lv = [x for x in rvc.walk(init) if x.get('kind') == 'VarDecl'][0]['name']
+        ob('fork.init.p%d' % P.count, 'worker ids of the forked workers start at 1', sp.expand(SInt.ex(v0)) == 1, 'initial counter %s' % v0, {'init': str(v0)})
+        ex.env[lv] = SInt(t)
+        c = ex.truth(ex.expr(cond))
+        zt, zn = z3.Int('thread'), z3.Int('nthreads')
+        if c:
+            seen_true = True
+            o = rvc.logic('C05.run.setup/fork.guard.enter.p%d' % P.count, F, 'a worker is forked only while its id is below nthreads_', zt < zn, pc=P.pc); o['functions'] = mf; obs.append(o)
+            ex.stmt(lbody)
+            pw = this['myWorkers_'].pushed
+            ok = len(pw) == 1 and sp.expand(SInt.ex(pw[0]['id_']) - t) == 0 and pw[0]['app_'] is this
+            ob('fork.body.p%d' % P.count, 'one pass of the loop appends exactly one worker, which belongs to this application and whose id is the loop counter', ok,
+               'pushed %d worker(s), id %s' % (len(pw), pw[0]['id_'] if pw else '-'), {'pushed': len(pw), 'id': str(pw[0]['id_']) if pw else None})
+            ex.expr(inc)
+            ob('fork.step.p%d' % P.count, 'the loop counter grows by exactly one per pass (ids are consecutive)', sp.expand(SInt.ex(ex.env[lv]) - t - 1) == 0, 'counter after the pass: %s' % ex.env[lv], {'next': str(ex.env[lv])})
+        else:
+            seen_false = True
+            o = rvc.logic('C05.run.setup/fork.guard.exit.p%d' % P.count, F, 'the loop stops only when the id has reached nthreads_ (one worker per thread: ids 0..nthreads_-1)', zt >= zn, pc=P.pc); o['functions'] = mf; obs.append(o)
+        if not P.next():
+            break
+    ob('fork.paths', 'vacuity guard: both the continuing and the terminating side of the loop condition were explored', seen_true and seen_false, 'enter=%s exit=%s' % (seen_true, seen_false))
+    # ---- mutex loop: per-iteration contract, ordered and unordered mode
+    init, cond, inc, lbody = loop_parts(mtx)
+    for sync in (True, False):
+        P = rvc.Paths()
+        while True:
+            P.start()
+            rvc.CTX.base = []
+            this, cb = world(True, sync, P)
+            ex = Exec({}, cb, fns, this)
+            ex.stmt(init)
+            lv = [x for x in rvc.walk(init) if x.get('kind') == 'VarDecl'][0]['name']
+            tag = '%s.p%d' % ('ordered' if sync else 'unordered', P.count)
+            ob('mutex.init.' + tag, 'the mutex loop starts at worker 0', sp.expand(SInt.ex(ex.env[lv])) == 0, 'initial counter %s' % ex.env[lv], {'init': str(ex.env[lv])})
+            ex.env[lv] = SInt(t)
+            c = ex.truth(ex.expr(cond))
+            zt, zk = z3.Int('thread'), z3.Int('nworkers')
+            if c:
+                o = rvc.logic('C05.run.setup/mutex.guard.enter.' + tag, F, 'one pass per worker', zt < zk, pc=P.pc); o['functions'] = mf; obs.append(o)
+                ex.stmt(lbody)
+                pin, pout = this['threadsMutexesIn_'].pushed, this['threadsMutexesOut_'].pushed
+                if sync:
+                    ok = len(pin) == 1 and len(pout) == 1 and pin[0] is not pout[0] and pin[0].ev == ['Lock'] and pout[0].ev == ['Lock']
+                    ob('mutex.body.' + tag, 'ordered mode: one pass appends exactly one input and one output mutex and locks each once (every ring slot starts locked)', ok,
+                       'in: %s out: %s' % ([m.ev for m in pin], [m.ev for m in pout]), {'in': str([m.ev for m in pin]), 'out': str([m.ev for m in pout])})
+                else:
+                    ob('mutex.body.' + tag, 'unordered mode: no ring mutex is created', not pin and not pout, 'in %d out %d' % (len(pin), len(pout)), {'in': len(pin), 'out': len(pout)})
+                ex.expr(inc)
+                ob('mutex.step.' + tag, 'the loop counter grows by exactly one per pass', sp.expand(SInt.ex(ex.env[lv]) - t - 1) == 0, 'counter after the pass: %s' % ex.env[lv], {'next': str(ex.env[lv])})
+            else:
+                o = rvc.logic('C05.run.setup/mutex.guard.exit.' + tag, F, 'the loop stops only after the last worker (ring length == number of workers == nthreads_)', zt >= zk, pc=P.pc); o['functions'] = mf; obs.append(o)
+            if not P.next():
+                break
+    # ---- slot 0 of both rings is released exactly once, nothing else is unlocked by the main thread
+    rel = [n for n in rvc.walk(body) if n.get('kind') == 'IfStmt' and 'threadsMutexesIn_' in members(n) and 'Unlock' in members(n) and not any(x.get('kind') in ('ForStmt', 'CXXForRangeStmt') for x in rvc.walk(n))]
+    ok, note = False, 'release statement not found'
+    if len(rel) == 1:
+        P = rvc.Paths(); P.start()
+        this, cb = world(True, True, P)
+        Exec({}, cb, fns, this).stmt(rel[0])
+        fi, fo = this['threadsMutexesIn_'].first, this['threadsMutexesOut_'].first
+        ok = fi is not None and fo is not None and fi.ev == ['Unlock'] and fo.ev == ['Unlock']
+        note = 'slot 0 events: in %s out %s' % (fi.ev if fi else None, fo.ev if fo else None)
+        P2 = rvc.Paths(); P2.start()
+        this2, cb2 = world(True, False, P2)
+        Exec({}, cb2, fns, this2).stmt(rel[0])
+        ok = ok and this2['threadsMutexesIn_'].first is None and this2['threadsMutexesOut_'].first is None
+    unl = [rvc.src_line(n) for n in rvc.walk(body) if n.get('kind') == 'CXXMemberCallExpr' and 'Unlock' in members(n['inner'][0]) and members(n['inner'][0]) & {'threadsMutexesIn_', 'threadsMutexesOut_'}]
+    ob('release', 'after the workers are started the main thread releases slot 0 of the input and of the output ring exactly once (ordered mode) and no other ring slot', ok and len(unl) == 2, note + '; ring unlock calls in Run at lines %s' % unl,
+       {'note': note, 'unlock_lines': str(unl)})
+    # native replay of a broken set-up: the real threaded application with fewer frames than threads (a ring whose length differs from the modulus starves or deadlocks there)
+    for o in obs:
+        if o['status'] == core.REFUTED:
+            o['witness'] = dict(o.get('witness') or {}, budget=2)
+    replay_schedule(obs, 4, True)
+    return obs
 
 
 def job_conc(nt, nf, sync, budget=None):
@@ -159,7 +371,7 @@ def run(tier, seed, only=None):
         confs = [(2, 1, True, None), (2, 2, True, None), (2, 2, False, -1), (2, 2, False, None)]
     else:
         confs = [(2, f, True, None) for f in (1, 2, 3)] + [(2, f, False, -1) for f in (1, 2, 3)] + [(2, f, False, None) for f in (1, 2, 3)] + [(1, 3, True, None), (1, 3, False, None)]
-    jobs = [(job_seq_pd, ()), (job_seq_run, ())] + [(job_conc, c) for c in confs]
+    jobs = [(job_seq_pd, ()), (job_seq_run, ()), (job_run_setup, ())] + [(job_conc, c) for c in confs]
     if only:
         jobs = [j for j in jobs if re.search(only, j[0].__name__ + str(j[1]))]
     obs = core.pmap(jobs)
